@@ -1067,7 +1067,21 @@ def _atoms_for(e, t, tgt):
     return (e, ("ne", tuple(v for v, _ in t["v"])))
 
 
-def enum_paths(fn, start, targets, limit=20000):
+def resolve_env(e, env, depth=0):
+    """Substitute path-local knowledge for opaque multi-definition locals inside an expression."""
+    if not isinstance(e, tuple) or not e or depth > 12:
+        return e
+    if e[0] == "var" and e[1] in env:
+        v = env[e[1]]
+        if v[0] == "const":
+            return ("k", v[1])
+        if v[1] != e:
+            return resolve_env(v[1], env, depth + 1)
+        return e
+    return tuple(resolve_env(x, env, depth + 1) if isinstance(x, tuple) else x for x in e)
+
+
+def enum_paths(fn, start, targets, limit=20000, want_env=False, resolve_atoms=False):
     """Every acyclic feasible path from block `start` to a block in `targets`, as
     (target, [(expr, polarity)]).  Unlike path_conditions this is path-sensitive for locals that
     are assigned in several branches (`let c = a || b;` lowers to `c = true` in one arm and
@@ -1082,7 +1096,14 @@ def enum_paths(fn, start, targets, limit=20000):
         if count[0] > limit:
             raise AnchorMissing("path enumeration in %s exceeds %d steps" % (fn.short, limit))
         if bb in targets:
-            out.append((bb, list(atoms)))
+            if want_env:
+                env2 = dict(env)
+                for st in fn.blocks[bb]["s"]:
+                    if st[0] == "=" and not st[1][1]:
+                        env2[st[1][0]] = ("expr", rvalue_expr(fn, st[2], 0, st[1][0])) if not (st[2][0] == "use" and st[2][1][0] == "k" and isinstance(st[2][1][1].get("v"), bool)) else ("const", st[2][1][1]["v"])
+                out.append((bb, list(atoms), env2))
+            else:
+                out.append((bb, list(atoms)))
             return
         if bb in seen:
             return
@@ -1118,6 +1139,8 @@ def enum_paths(fn, start, targets, limit=20000):
                     walk(nxt, env, atoms, seen)
                 return
             e = val[1] if val is not None else op_expr(fn, d)
+            if resolve_atoms:
+                e = resolve_env(e, env)
             for tgt in dict.fromkeys(succ[bb]):
                 walk(tgt, env, atoms + [_atoms_for(e, t, tgt)], seen)
             return
